@@ -379,6 +379,9 @@ func TestVerif_C31(t *testing.T) {
 	depth := r.Pick(3, 4)
 	var rc c31case
 	replay := r.ReplayCase(&rc) && rc.N != 0
+	if r.IsReplay() && !replay {
+		return // a recorded case of the unit honestrun
+	}
 	for wi, n := range []uint32{4, 7, 5, 8} { // 5 and 8 are sizes that are not of the form 3C+1
 		if replay && rc.N != n {
 			continue
